@@ -46,6 +46,9 @@ pub struct Inventory {
     pub other_kinds: Vec<(String, String)>,
     /// token text of the assertion items, parallel to `assert_items`
     pub assert_texts: Vec<String>,
+    /// parallel to `other_items`: for struct / union items the definition with every derive except
+    /// `Copy` / `Clone` removed (layout probes must not depend on derive decisions), else empty
+    pub layout_texts: Vec<String>,
     /// duplicate definitions seen (name)
     pub duplicates: Vec<String>,
 }
@@ -77,6 +80,21 @@ fn repr_of(attrs: &[syn::Attribute]) -> (Option<u64>, Option<u64>, bool, Option<
         });
     }
     (packed, align, transparent, int)
+}
+
+/// keep only `Copy` and `Clone` in `#[derive(…)]`
+fn reduce_derives(attrs: &mut Vec<syn::Attribute>) {
+    let mut out = vec![];
+    for a in attrs.drain(..) {
+        if a.path().is_ident("derive") {
+            let mut keep: Vec<syn::Path> = vec![];
+            let _ = a.parse_nested_meta(|m| { if m.path.is_ident("Copy") || m.path.is_ident("Clone") { keep.push(m.path.clone()); } Ok(()) });
+            if !keep.is_empty() { out.push(syn::parse_quote!(#[derive(#(#keep),*)])); }
+        } else {
+            out.push(a);
+        }
+    }
+    *attrs = out;
 }
 
 fn fields_of(f: &syn::Fields) -> Vec<(String, syn::Type)> {
@@ -171,12 +189,15 @@ impl Inventory {
                     if let Some((_, items)) = &m.content {
                         self.other_items.push(format!("pub mod {} {{", m.ident));
                         self.other_kinds.push(("mod".into(), m.ident.to_string()));
+                        self.layout_texts.push(String::new());
                         self.walk_in(items, &m.ident.to_string());
                         self.other_items.push("}".into());
                         self.other_kinds.push(("mod".into(), String::new()));
+                        self.layout_texts.push(String::new());
                     } else {
                         self.other_items.push(it.to_token_stream().to_string());
                         self.other_kinds.push(("other".into(), String::new()));
+                        self.layout_texts.push(String::new());
                     }
                     continue;
                 }
@@ -241,6 +262,11 @@ impl Inventory {
                 _ => {}
             }
             self.other_items.push(it.to_token_stream().to_string());
+            self.layout_texts.push(match it {
+                syn::Item::Struct(s) => { let mut s = s.clone(); reduce_derives(&mut s.attrs); s.to_token_stream().to_string() }
+                syn::Item::Union(u) => { let mut u = u.clone(); reduce_derives(&mut u.attrs); u.to_token_stream().to_string() }
+                _ => String::new(),
+            });
             self.other_kinds.push(match it {
                 syn::Item::Struct(s) => ("struct".into(), s.ident.to_string()),
                 syn::Item::Union(u) => ("union".into(), u.ident.to_string()),
@@ -257,8 +283,9 @@ impl Inventory {
     pub fn types_source(&self, removed: &std::collections::BTreeSet<String>) -> (String, Vec<String>) {
         let mut src = String::new();
         let mut names = vec![];
-        for (t, (k, n)) in self.other_items.iter().zip(self.other_kinds.iter()) {
+        for ((t, (k, n)), lt) in self.other_items.iter().zip(self.other_kinds.iter()).zip(self.layout_texts.iter()) {
             if k == "impl" && !n.starts_with("__") { continue; }
+            let t = if !lt.is_empty() && !n.starts_with("__") { lt } else { t };
             if (k == "struct" || k == "union" || k == "type") && removed.contains(n) { continue; }
             src.push_str(t);
             src.push('\n');
